@@ -85,6 +85,9 @@ theorem mem_keys_iff_contains (l : List (String × Entry)) (k : String) :
     obtain ⟨v, hv⟩ := h
     exact AL.mem_keys_of_get? hv
 
+theorem contains_of_get?' {l : List (String × Blob)} {k : String} {v : Blob} (h : AL.get? l k = some v) :
+    AL.contains l k = true := (AL.contains_iff_get? _ _).mpr ⟨v, h⟩
+
 /-- what one save writes: the abstract content, entry by entry -/
 theorem writeOut_get? {s : State} (h : WF s) (saveAs : Bool) (dest : List (String × Blob)) (k : String)
     (hd : (AL.keys dest).Nodup) :
@@ -701,6 +704,91 @@ theorem setItem_spec {se : Bool} {s s' : State} {n : String} {b : Blob} (h : WF 
           · rw [upd_ne hk, ← hsame1 k hk, ← hsame2 k]
             unfold abs
             simp [hget, hk]
+
+/-! ### every history -/
+
+theorem wf_saveInPlace {s : State} (h : WF s) : WF (saveInPlace s) :=
+  wf_save h false _ (nodup_writeOut false s s.disk h.diskKeys) (saveInPlace_disk h)
+
+theorem wf_saveAs {s : State} (h : WF s) : WF (saveAs s []) :=
+  wf_save h true _ (nodup_writeOut true s _ (nodup_keys_foldW _ _ _ (by simp [AL.keys]))) (saveAs_disk h)
+
+theorem wf_stepTotal {se : Bool} {s : State} (h : WF s) (op : Op) : WF (stepTotal se s op) := by
+  unfold stepTotal
+  cases hs : step se s op with
+  | error e => exact h
+  | ok s' =>
+    cases op with
+    | get n =>
+      simp only [step, Except.map] at hs
+      cases hg : getItem s n with
+      | error e => simp [hg] at hs
+      | ok p => simp [hg] at hs; subst hs; exact (getItem_spec h hg).1
+    | set n b => exact (setItem_spec h hs).1
+    | del n => exact (delItem_spec h hs).1
+    | saveInPlace => simp only [step, Except.ok.injEq] at hs; subst hs; exact wf_saveInPlace h
+    | saveAsNew => simp only [step, Except.ok.injEq] at hs; subst hs; exact wf_saveAs h
+
+theorem wf_run {se : Bool} {s : State} (h : WF s) (ops : List Op) : WF (run se s ops) := by
+  unfold run
+  induction ops generalizing s with
+  | nil => exact h
+  | cons op rest ih => exact ih (wf_stepTotal h op)
+
+theorem wf_opened (disk : List (String × Blob)) (hk : (AL.keys disk).Nodup) : WF (opened disk) := by
+  have hget : ∀ k, AL.get? (opened disk).entries k = (AL.get? disk k).map (fun _ => (⟨none, false, true⟩ : Entry)) :=
+    fun k => AL.get?_map_val (fun _ => (⟨none, false, true⟩ : Entry)) disk k
+  constructor
+  · show (AL.keys (disk.map (fun p => (p.1, (⟨none, false, true⟩ : Entry))))).Nodup
+    rw [AL.keys_map_val (fun _ => (⟨none, false, true⟩ : Entry))]; exact hk
+  · simp [opened, AL.keys]
+  · exact hk
+  · intro n e hg _
+    rw [hget] at hg
+    cases hd : AL.get? disk n with
+    | none => simp [hd] at hg
+    | some b => simp [hd] at hg; subst hg; exact ⟨rfl, contains_of_get?' hd⟩
+  · intro n e b hg hdata _
+    rw [hget] at hg
+    cases hd : AL.get? disk n with
+    | none => simp [hd] at hg
+    | some b0 => simp [hd] at hg; subst hg; simp at hdata
+  · intro n hc; simp [opened, AL.contains] at hc
+  · intro n hc
+    left
+    rw [AL.contains_iff_get?] at hc
+    obtain ⟨b, hb⟩ := hc
+    rw [hget]; simp [show AL.get? disk n = some b from hb]
+  · intro n e b hg; simp [opened] at hg
+  · intro n e hg; simp [opened] at hg
+
+theorem abs_opened (disk : List (String × Blob)) (k : String) : abs (opened disk) k = AL.get? disk k := by
+  unfold abs
+  have hget : AL.get? (opened disk).entries k = (AL.get? disk k).map (fun _ => (⟨none, false, true⟩ : Entry)) :=
+    AL.get?_map_val (fun _ => (⟨none, false, true⟩ : Entry)) disk k
+  rw [hget]
+  cases hd : AL.get? disk k with
+  | none => rfl
+  | some b => simp [entryVal, opened, hd]
+
+/-- whenever nothing is dirty, the directory holds the content -/
+theorem clean_means_persisted {s : State} (h : WF s) (hc : AllClean s) (k : String) : AL.get? s.disk k = abs s k := by
+  obtain ⟨_, hsched, hall⟩ := hc
+  cases he : AL.get? s.entries k with
+  | none =>
+    rw [abs_of_no_entry he]
+    cases hd : AL.get? s.disk k with
+    | none => rfl
+    | some b =>
+      exfalso
+      rcases h.covered k ((AL.contains_iff_get? _ _).mpr ⟨b, hd⟩) with h1 | h1
+      · rw [he] at h1; simp at h1
+      · rw [hsched] at h1; simp [AL.contains] at h1
+  | some e =>
+    rw [abs_of_entry he]
+    cases hdata : e.data with
+    | none => simp [entryVal, hdata]
+    | some b => simp [entryVal, hdata, h.clean k e b he hdata (hall k e he)]
 
 end FileSet
 end DefconModel
